@@ -29,7 +29,7 @@ def parse_padded(bs):
                     raise BadPath("bad 16-bit logical")
                 out.append(("logical", LOGICAL_TYPES[ltype], int.from_bytes(bs[i + 2:i + 4], "little")))
                 i += 4
-            elif fmt == 3:
+            elif fmt == 2:      # CIP Vol. 1, C-1.4.2: 00 = 8-bit, 01 = 16-bit, 10 = 32-bit, 11 = reserved
                 if i + 6 > n or bs[i + 1] != 0:
                     raise BadPath("bad 32-bit logical")
                 out.append(("logical", LOGICAL_TYPES[ltype], int.from_bytes(bs[i + 2:i + 6], "little")))
